@@ -31,6 +31,8 @@ def specItems : Route → List (Str × Str)
   | .pairs items => items
   | .strings ls => ls.map partitionColonSpace
   | .empty => []
+  | .text _ => []
+  | .file _ => []
 
 def specStep (lower : Str → Str) (d : PyDict) : Op → PyDict × Out
   | .set k v => (dset d (lower k) v, .none)
@@ -45,8 +47,14 @@ def specRun (lower : Str → Str) : PyDict → List Op → List Out
   | _, [] => []
   | d, op :: ops => let r := specStep lower d op; r.2 :: specRun lower r.1 ops
 
-def spec (lower : Str → Str) (i : Input) : Obs :=
-  specRun lower ((specItems i.route).foldl (fun d kv => dset d (lower kv.1) kv.2) []) i.ops
+/-- the dictionary the history starts from: the items under lower-cased keys; for a text or a file object, the
+paragraph data of the text (whose keys the parser has already lower-cased: C08 says what they are) -/
+def specInit (lower : Str → Str) : Route → PyDict
+  | .text t => fromText822 t
+  | .file t => fromText822 t
+  | r => (specItems r).foldl (fun d kv => dset d (lower kv.1) kv.2) []
+
+def spec (lower : Str → Str) (i : Input) : Obs := specRun lower (specInit lower i.route) i.ops
 
 def holdsOn (i : Input) (o : Obs) : Bool := decide (o = spec lowerAscii i)
 
@@ -157,11 +165,6 @@ abbrev ObsR := Except PyExc (List (Str × Str))
 def dumps822 (d : PyDict) : Str :=
   join ['\n'] (d.map fun kv => normalizeName kv.1 ++ ':' :: ' ' :: kv.2) ++ ['\n']
 
-/-- `Debian822(text).to_dict()`: empty text gives the empty mapping, otherwise the header-style paragraph data of the
-text with a PGP signature removed -/
-def fromText822 (text : Str) : List (Str × Str) :=
-  if text.isEmpty then [] else Model.Email.getParagraphData (Model.Unsign.removeSignature text)
-
 def modelR (i : InputR) : ObsR :=
   .ok (fromText822 (dumps822 (construct lowerAscii (.pairs i))))
 
@@ -195,6 +198,8 @@ def decRoute : Val → Option Route
   | .list [.str ['p'], p] => (decPairs p).map .pairs
   | .list [.str ['s'], .list ls] => (ls.mapM Val.asStr?).map .strings
   | .list [.str ['e']] => some .empty
+  | .list [.str ['t'], .str t] => some (.text t)
+  | .list [.str ['f'], .str t] => some (.file t)
   | _ => none
 
 def decOp : Val → Option Op
